@@ -11,6 +11,7 @@ import (
 	"encoding/binary"
 	"encoding/json"
 	"fmt"
+	"hash/fnv"
 	"io"
 	"net/http"
 	"net/http/httptest"
@@ -19,6 +20,7 @@ import (
 	"path/filepath"
 	"runtime/debug"
 	"runtime/metrics"
+	"strconv"
 	"sync"
 	"syscall"
 	"time"
@@ -38,6 +40,9 @@ type hostileReq struct {
 	Status int `json:"status,omitempty"`
 	// http targets: body of the /items and /files listings ("" = one plain name)
 	Listing string `json:"listing,omitempty"`
+	// two-sided http targets: the peer is a real whispertool server over healthy files of the layout in Data, behind
+	// a relay that alters the request's query this way before passing it on ("" = not relayed)
+	Alter string `json:"alter,omitempty"`
 }
 
 type hostileResp struct {
@@ -68,8 +73,58 @@ var (
 	hostileClaim     int64
 	hostileStatus    int
 	hostileListing   string
+	hostileAlter     string
+	hostileSteps     []int64
 	hostileServer    *httptest.Server
 )
+
+// relayAltered passes the request on to the real server of this process with its query altered: the reply is
+// well-formed in every byte, only not the answer to what was asked (a peer of another version, a cache in between).
+func relayAltered(w http.ResponseWriter, r *http.Request, alter string, steps []int64) {
+	_, real, err := startServer()
+	if err != nil {
+		http.Error(w, err.Error(), 500)
+		return
+	}
+	q := r.URL.Query()
+	shift := func(name string, by int64) {
+		if ts, err := wt.ParseTimestamp(q.Get(name)); err == nil && int64(ts)+by >= 0 {
+			q.Set(name, wt.Timestamp(int64(ts)+by).String())
+		}
+	}
+	if r.URL.Path == "/view" || r.URL.Path == "/sum" {
+		switch alter {
+		case "all-archives":
+			q.Set("retention", "-1")
+		case "next-archive":
+			k, _ := strconv.Atoi(q.Get("retention"))
+			q.Set("retention", strconv.Itoa((k+1)%len(steps)))
+		case "until-minus-step":
+			shift("until", -steps[0])
+		case "until-minus-last-step":
+			shift("until", -steps[len(steps)-1])
+		case "from-plus-step":
+			shift("from", steps[0])
+		case "now-minus-hour":
+			shift("now", -3600)
+		case "now-plus-last-step":
+			shift("now", steps[len(steps)-1])
+		}
+	}
+	resp, err := http.Get(real + r.URL.Path + "?" + q.Encode())
+	if err != nil {
+		http.Error(w, err.Error(), 502)
+		return
+	}
+	defer resp.Body.Close()
+	for k, v := range resp.Header {
+		if k != "Content-Length" {
+			w.Header()[k] = v
+		}
+	}
+	w.WriteHeader(resp.StatusCode)
+	io.Copy(w, resp.Body)
+}
 
 func hostileURL() string {
 	if hostileServer == nil {
@@ -78,7 +133,12 @@ func hostileURL() string {
 			p := hostilePayload
 			claim := hostileClaim
 			status := hostileStatus
+			alter, steps := hostileAlter, hostileSteps
 			hostilePayloadMu.Unlock()
+			if alter != "" && len(steps) > 0 {
+				relayAltered(w, r, alter, steps)
+				return
+			}
 			if status != 0 && claim == 0 {
 				w.Header().Set("Content-Type", "application/octet-stream")
 				w.WriteHeader(status)
@@ -338,6 +398,7 @@ func execHostile(req hostileReq, dir string) (resp hostileResp) {
 		hostileClaim = 0
 		hostileStatus = 0
 		hostileListing = req.Listing
+		hostileAlter, hostileSteps = "", nil
 		hostilePayloadMu.Unlock()
 		h, herr := ParseWspHeader(req.Data)
 		if herr != nil || len(h.Archives) == 0 || len(h.Archives) > 8 {
@@ -366,6 +427,51 @@ func execHostile(req hostileReq, dir string) (resp hostileResp) {
 			db.Close()
 			return true
 		}
+		if req.Alter != "" {
+			// the peer's files: healthy, of the same layout, with a few recent values
+			root, _, err := startServer()
+			if err != nil {
+				resp.Err = "no real server: " + err.Error()
+				return
+			}
+			os.RemoveAll(filepath.Join(root, "a"))
+			os.RemoveAll(filepath.Join(root, "item1"))
+			defer os.RemoveAll(filepath.Join(root, "a"))
+			defer os.RemoveAll(filepath.Join(root, "item1"))
+			var steps []int64
+			for _, a := range l.Archives {
+				steps = append(steps, a.Step)
+			}
+			for _, rel := range []string{"a/b.wsp", "item1/f1.wsp", "item1/sum.wsp"} {
+				p := filepath.Join(root, rel)
+				os.MkdirAll(filepath.Dir(p), 0755)
+				db, err := createWT(p, l)
+				if err != nil {
+					resp.Err = "layout not creatable"
+					return
+				}
+				nowT := time.Now().Unix()
+				for i, a := range l.Archives {
+					guard(func() {
+						db.UpdatePointForArchive(i, wt.Timestamp(nowT-a.Step), wt.Value(float64(i+1)), wt.Timestamp(nowT))
+					})
+				}
+				db.Sync()
+				db.Close()
+			}
+			hostilePayloadMu.Lock()
+			hostileAlter, hostileSteps = req.Alter, steps
+			hostilePayloadMu.Unlock()
+		}
+		// which archive the command asks for follows from the payload: all of them, or one (the reply carries
+		// what it carries whatever was asked: a server need not honour the selection)
+		sel := cmd.ArchiveIDAll
+		if hs := fnv.New32a(); true {
+			hs.Write(req.Data)
+			if v := hs.Sum32(); v%3 != 0 {
+				sel = int(v/3) % len(l.Archives)
+			}
+		}
 		var c cmd.Command
 		switch req.Target {
 		case "http-diff-src":
@@ -373,7 +479,7 @@ func execHostile(req hostileReq, dir string) (resp hostileResp) {
 				resp.Err = "layout not creatable"
 				return
 			}
-			c = &cmd.DiffCommand{SrcBase: url, SrcRelPath: "a/b.wsp", DestBase: local, ArchiveID: cmd.ArchiveIDAll, TextOut: ""}
+			c = &cmd.DiffCommand{SrcBase: url, SrcRelPath: "a/b.wsp", DestBase: local, ArchiveID: sel, TextOut: ""}
 			if req.Listing != "" {
 				c.(*cmd.DiffCommand).SrcRelPath = "a/*.wsp" // glob mode: the file names come from the /files listing
 			}
@@ -382,7 +488,7 @@ func execHostile(req hostileReq, dir string) (resp hostileResp) {
 				resp.Err = "layout not creatable"
 				return
 			}
-			c = &cmd.CopyCommand{SrcBase: url, SrcRelPath: "a/b.wsp", DestBase: local, AggregationMethod: wt.AggregationMethod(l.Method), XFilesFactor: l.XFF, ArchiveInfoList: wtArchives(l), ArchiveID: cmd.ArchiveIDAll, TextOut: ""}
+			c = &cmd.CopyCommand{SrcBase: url, SrcRelPath: "a/b.wsp", DestBase: local, AggregationMethod: wt.AggregationMethod(l.Method), XFilesFactor: l.XFF, ArchiveInfoList: wtArchives(l), ArchiveID: sel, TextOut: ""}
 			if req.Listing != "" {
 				c.(*cmd.CopyCommand).SrcRelPath = "a/*.wsp"
 			}
@@ -391,13 +497,13 @@ func execHostile(req hostileReq, dir string) (resp hostileResp) {
 				resp.Err = "layout not creatable"
 				return
 			}
-			c = &cmd.SumDiffCommand{SrcBase: local, ItemPattern: "item1", SrcPattern: "*.wsp", DestBase: url, DestRelPath: "sum.wsp", ArchiveID: cmd.ArchiveIDAll, TextOut: ""}
+			c = &cmd.SumDiffCommand{SrcBase: local, ItemPattern: "item1", SrcPattern: "*.wsp", DestBase: url, DestRelPath: "sum.wsp", ArchiveID: sel, TextOut: ""}
 		default:
 			if !mk("item1/sum.wsp") {
 				resp.Err = "layout not creatable"
 				return
 			}
-			c = &cmd.SumDiffCommand{SrcBase: url, ItemPattern: "item1", SrcPattern: "*.wsp", DestBase: local, DestRelPath: "sum.wsp", ArchiveID: cmd.ArchiveIDAll, TextOut: ""}
+			c = &cmd.SumDiffCommand{SrcBase: url, ItemPattern: "item1", SrcPattern: "*.wsp", DestBase: local, DestRelPath: "sum.wsp", ArchiveID: sel, TextOut: ""}
 		}
 		var err error
 		resp.Where = req.Target + " Execute"
@@ -417,6 +523,7 @@ func execHostile(req hostileReq, dir string) (resp hostileResp) {
 		hostileClaim = req.Claim
 		hostileStatus = req.Status
 		hostileListing = req.Listing
+		hostileAlter, hostileSteps = "", nil
 		hostilePayloadMu.Unlock()
 		var c cmd.Command
 		switch req.Target {
@@ -456,6 +563,7 @@ func childMainC15() {
 	for {
 		var req hostileReq
 		if err := dec.Decode(&req); err != nil {
+			cleanupServerRoot()
 			return
 		}
 		resp := execHostile(req, dir)
@@ -478,16 +586,19 @@ func scratchBase() string {
 
 // hostileChild is the parent's handle on the sandboxed process.
 type hostileChild struct {
-	cmd    *exec.Cmd
-	stdin  io.WriteCloser
-	out    *bufio.Reader
-	stderr *bytes.Buffer
-	lines  chan []byte
+	cmd     *exec.Cmd
+	stdin   io.WriteCloser
+	out     *bufio.Reader
+	stderr  *bytes.Buffer
+	lines   chan []byte
+	scratch string
 }
 
 func startHostileChild() (*hostileChild, error) {
 	c := exec.Command(os.Args[0], "-test.run", "^TestChildNoop$")
-	c.Env = append(os.Environ(), "VERIF_CHILD=c15", "GOMAXPROCS=2", "GOGC=50")
+	// the child's scratch files live in a directory of the parent's, removed with the child however it ends
+	scratch := scratchDir()
+	c.Env = append(os.Environ(), "VERIF_CHILD=c15", "GOMAXPROCS=2", "GOGC=50", "VERIF_SCRATCH="+scratch)
 	stdin, err := c.StdinPipe()
 	if err != nil {
 		return nil, err
@@ -496,9 +607,10 @@ func startHostileChild() (*hostileChild, error) {
 	if err != nil {
 		return nil, err
 	}
-	h := &hostileChild{cmd: c, stdin: stdin, stderr: &bytes.Buffer{}, lines: make(chan []byte, 1)}
+	h := &hostileChild{cmd: c, stdin: stdin, stderr: &bytes.Buffer{}, lines: make(chan []byte, 1), scratch: scratch}
 	c.Stderr = h.stderr
 	if err := c.Start(); err != nil {
+		os.RemoveAll(scratch)
 		return nil, err
 	}
 	h.out = bufio.NewReaderSize(stdout, 1<<20)
@@ -522,6 +634,7 @@ func (h *hostileChild) kill() {
 	h.stdin.Close()
 	h.cmd.Process.Kill()
 	h.cmd.Wait()
+	os.RemoveAll(h.scratch)
 }
 
 // call sends one request; died=true means the child process is gone (caller restarts it).
